@@ -164,6 +164,13 @@ def conclude(chk, ok, broken, props_file, res, viol, model_only, prefix, corr):
         r = other[0]
         chk.fail("generated program made the interpreter panic" if r["verdict"] == "panic" else "AST could not be translated",
                  {"program": r["src"], "impl": r["impl"]}, klass=prefix + ":" + r["verdict"])
+    # the correspondence must actually exercise the model: when it discards most of the generated programs (a prelude or
+    # generator that reaches an unmodelled built-in, too little fuel) the tie is vacuous — that is a broken check, reported as such
+    disc = [r for r in res if r["verdict"] in ("unsup", "fuel")]
+    chk.cov["model_discarded"] = {"unsup_or_fuel": len(disc), "of": len(res)}
+    if len(res) >= 20 and len(disc) * 2 > len(res) and not viol:
+        chk.fail("the model discards %d of %d generated programs (unmodelled built-in or out of fuel): the correspondence %s is not exercised"
+                 % (len(disc), len(res), corr), {"correspondence": corr, "first_discarded_program": disc[0]["src"][:400]}, no_input=True)
     if not ok and not viol:
         chk.fail(broken, {"theorem_file": "coq/" + props_file, "detail": broken}, no_input=True)
     return chk.finish()
